@@ -26,7 +26,8 @@ pub fn gen(rng: &mut Rng, k: usize, _tier: &str) -> J {
     let (sql, ordered) = gen_sql(rng);
     // every third case: rename the output columns to awkward names (through a Map on top)
     let rename: Vec<String> = if k % 3 == 0 { let mut v: Vec<String> = vec![]; for _ in 0..4 { let n = rng.pick(&NAMES).to_string(); if !v.contains(&n) { v.push(n); } } v } else { vec![] };
-    json!({"sql": sql, "ordered": ordered, "rename": rename, "data_seed": rng.next() % 1000000})
+    // one case in four over the catalogue whose tables live at a schema-qualified path under another relation name
+    json!({"sql": sql, "ordered": ordered, "rename": rename, "data_seed": rng.next() % 1000000, "qualified": rng.chance(1, 4)})
 }
 
 fn schema_sig(rel: &Relation) -> Vec<(String, String)> { rel.schema().iter().map(|f| (f.name().to_string(), f.data_type().to_string())).collect() }
@@ -111,7 +112,8 @@ fn per_dialect_in(rel: &Relation, d: &str, rels: &qrlew::hierarchy::Hierarchy<st
 pub fn eval(case: &J) -> Outcome {
     let mut out = Outcome::new();
     let sql = case["sql"].as_str().unwrap().to_string();
-    let rels = world2();
+    let qualified = case["qualified"] == true;
+    let rels = if qualified { out.tag("qualified-catalogue"); crate::s_sqlx::world2q() } else { world2() };
     let base = match guarded(|| { let q = parse(&sql).map_err(|e| e.to_string())?; Relation::try_from(QueryWithRelations::new(&q, &rels)).map_err(|e| e.to_string()) }) {
         Ok(Ok(r)) => r, Ok(Err(_)) => { out.tag("trivial"); out.tag("compile-err"); return out; }
         Err((loc, msg)) => { out.tag("trivial"); out.fail(&format!("C18/dialect/compile-panic/{}{}", site(&loc, &msg), compile_panic_cause(&sql, &loc, &msg).map(|c| format!("/{c}")).unwrap_or_default()), format!("{sql}: {msg}")); return out; } };
@@ -132,7 +134,7 @@ pub fn eval(case: &J) -> Outcome {
     let mut rng = Rng::new(case["data_seed"].as_u64().unwrap());
     let data = gen_data2(&mut rng);
     for d in DIALECTS {
-        let r = per_dialect(&rel, d);
+        let r = per_dialect_in(&rel, d, &rels);
         let text = match r.text { Ok(t) => t, Err((loc, msg)) => { out.fail(&format!("C18/dialect/{d}/render-panic/{}", site(&loc, &msg)), format!("{sql}: {msg}")); continue; } };
         if let Err(e) = r.accepted { out.fail(&format!("C17/dialect/{d}/not-accepted/{shape}"), format!("{sql} (columns {:?}) rendered for {d} as {text} is rejected by the {d} parser: {e}", sig.iter().map(|x| &x.0).collect::<Vec<_>>())); continue; }
         match r.readback {
